@@ -40,6 +40,14 @@ ASSUMPTIONS = ['fresh build and history are solved by the same interface; tolera
 
 
 def gen_case(rng, idx, tier):
+    if rng.random() < 0.1:
+        # event-wise decisions in deterministic linear / convex rows, every adapt() call made after
+        # the constraints were added (or after a first solve); the closed form is the fresh build
+        from rv import evconvex
+        sp = evconvex.gen(rng, tier)
+        if not sp['late_adapt']:
+            sp['late_adapt'] = 1 + int(rng.integers(2))
+        return {'front': 'evconvex', 'spec': sp}
     if rng.random() < 0.6:
         spec = R.gen(rng, tier)
         nz, nzr = spec['nz'], spec['nzr']
@@ -130,6 +138,12 @@ def solve_val(model, sname):
 
 
 def run_case(spec, ctx):
+    if spec['front'] == 'evconvex':
+        from rv import evconvex
+        r = evconvex.run(spec['spec'], ctx, exact=True)
+        if r.get('status') == 'violation':
+            r['mechanism'] = 'late_adapt:' + str(r.get('mechanism'))
+        return r
     if spec['front'] == 'ro':
         return run_ro(spec, ctx)
     return run_dro(spec, ctx)
@@ -417,9 +431,18 @@ def run_dro(spec, ctx):
         if split:
             events.append('split_exptset')
         late_fa = bool(hr.random() < 0.4)
+        r_la = hr.random()
+        late_ad = None if r_la < 0.55 else 'event' if r_la < 0.8 else 'all'
         BH = DR.build(base, variant={'after_sets': after_sets, 'split_moments': split,
-                                     'late_forall': late_fa})
+                                     'late_forall': late_fa, 'late_adapt': late_ad})
         m = BH.model
+        adapt_first = bool(hr.random() < 0.3)
+        if BH.pending_adapt is not None and adapt_first:
+            # adapt() calls after every constraint was created and added, before any formulation
+            BH.pending_adapt()
+            BH.pending_adapt = None
+            events.append('late_adapt_' + late_ad)
+            ctx.count('late_adapt_dro')
         if ops['mid']:
             with warnings.catch_warnings():
                 warnings.simplefilter('ignore')
@@ -439,6 +462,12 @@ def run_dro(spec, ctx):
                         ctx.count('mid_solve_solver_library_error')
                     else:
                         raise
+        if BH.pending_adapt is not None:
+            # ... or after the model (still without the adaptation) was formulated / solved
+            BH.pending_adapt()
+            BH.pending_adapt = None
+            events.append('late_adapt_%s_after_formulation' % late_ad)
+            ctx.count('late_adapt_dro')
         if BH.pending_forall:
             # constraints that were in the model (with the default set) through the formulations
             # above get their own ambiguity set only now
